@@ -8,13 +8,20 @@ class Undecided(Exception):
     Never reported as a VIOLATION (exit code 2)."""
 
 
-def mask(src: str) -> str:
+def strip_comments(src: str) -> str:
+    """src with comments blanked (string literals kept)."""
+    return mask(src, comments_only=True)
+
+
+def mask(src: str, comments_only=False) -> str:
     """Same-length copy of src with comments, string and char literals blanked
     (newlines kept), so that brace matching and regex anchors see code only."""
     out = list(src)
     i, n = 0, len(src)
 
-    def blank(a, b):
+    def blank(a, b, comment=False):
+        if comments_only and not comment:
+            return
         for k in range(a, b):
             if out[k] != "\n":
                 out[k] = " "
@@ -24,7 +31,7 @@ def mask(src: str) -> str:
         if c == "/" and i + 1 < n and src[i + 1] == "/":
             j = src.find("\n", i)
             j = n if j < 0 else j
-            blank(i, j)
+            blank(i, j, True)
             i = j
         elif c == "/" and i + 1 < n and src[i + 1] == "*":
             depth, j = 1, i + 2
@@ -37,7 +44,7 @@ def mask(src: str) -> str:
                     j += 2
                 else:
                     j += 1
-            blank(i, j)
+            blank(i, j, True)
             i = j
         elif c == '"' or (c == "r" and re.match(r'r#*"', src[i:i + 8]) and (i == 0 or not (src[i - 1].isalnum() or src[i - 1] == "_"))) \
                 or (c == "b" and i + 1 < n and src[i + 1] == '"' and (i == 0 or not (src[i - 1].isalnum() or src[i - 1] == "_"))):
